@@ -146,7 +146,9 @@ Definition prop_fail (c : case) : nat :=
       if negb (wf_graphb g && ident_ok c g) then 1%nat
       else if negb (refs_ok g) then 2%nat
       else if negb (chiral_ok c g) then 3%nat
-      else if rel_contradiction (rel_got c g) (rel_want c) then 4%nat
+      else if rel_contradiction (rel_got c g) (rel_want c) then
+             (* 14: inside the known defect class (EzDefs.in_class on the molecule the step received) *)
+             (if match c_before c with Some b => in_class b | None => false end then 14%nat else 4%nat)
       else if negb (rel_same_support (rel_got c g) (rel_want c)) then 5%nat
       else 0%nat
   end.
